@@ -26,6 +26,7 @@ func init() {
 			"non-termination: a case in flight for more than 10 CPU-seconds is re-run alone and is a violation only if it then burns more than 20 CPU-seconds; wall-clock time is never used for a verdict",
 			"a clean checkptr run covers only the executions driven",
 		},
+		FuzzTarget: "FuzzDecodeAll", FuzzExecs: 6000000,
 		MinDistinctQuick: 500000, MinDistinctThorough: 20000000,
 	})
 }
@@ -433,7 +434,9 @@ func c01Workload(c *core.Ctx, scale uint64, race bool) {
 		}
 		c01Run(cs, items)
 		if cs.Idx < 64 {
-			cs.Sample("mutant/"+k.String(), func() any { return map[string]any{"base_hex": mon.Hex(base, 48), "example_mutant_hex": mon.Hex(items[len(items)-1].in, 48)} })
+			cs.Sample("mutant/"+k.String(), func() any {
+				return map[string]any{"base_hex": mon.Hex(base, 48), "example_mutant_hex": mon.Hex(items[len(items)-1].in, 48)}
+			})
 		}
 	})
 	// (c) hostile shapes
